@@ -39,7 +39,7 @@ type gcCase struct {
 	SkipLocal  bool   `json:"skip_verification_by_local_caller"`
 	EmptyNonce bool   `json:"empty_nonce"`
 	PrevKey    bool   `json:"record0_carries_a_previous_certificate_key,omitempty"` // record 0 was created by a rotation and names its predecessor's key, whose own record is gone; signer code -5 = that old key
-	PkixBy     *int   `json:"request_key_of,omitempty"` // signer code whose key the request names as certificate key (default: the nonce signer's)
+	PkixBy     *int   `json:"request_key_of,omitempty"`                             // signer code whose key the request names as certificate key (default: the nonce signer's)
 }
 
 func permutations(n int) [][]int {
